@@ -112,7 +112,14 @@ def c08_jobs(tier):
     for sp in ("list", "tuple", "flat"):
         add(2, _pat(2), {v: sp for v in vecs})
         add(2, _pat(2, x0=None), {v: sp for v in vecs})
-    # mismatched dimensions: one vector has a different length (concrete shape fact)
+    # integer-typed spellings of valid problems (python ints, int lists/tuples, int64 arrays), with and without x0 / plausible bounds
+    ip = lambda D, **kw: dict(dict(x0=None, lb=["int:-3"] * D, ub=["int:5"] * D, plb=["int:-1"] * D, pub=["int:2"] * D), **kw)
+    for sp in ("row", "flat", "list", "tuple", "scalar"):
+        for D in ((1,) if sp == "scalar" else (1, 2)):
+            add(D, ip(D), {v: sp for v in vecs})
+            add(D, ip(D, plb=None, pub=None), {v: sp for v in vecs})
+            add(D, ip(D, x0=["int:0"] * D), {v: sp for v in vecs})
+            add(D, ip(D, lb=None, ub=None), {v: sp for v in vecs})
     return jobs
 
 
@@ -239,7 +246,7 @@ def fl_kind_jobs(tier):
     for D in ((1, 2) if tier == "thorough" else (2,)):
         for n in (0, 2):
             for level in (0, 1, 2):
-                kinds = ["raise", "py", "arr1"] + list(INVALID_KINDS) if level < 2 else ["raise", "valid"] + list(INVALID_KINDS) + list(HE_INVALID)
+                kinds = ["raise", "raise_noargs", "py", "arr1"] + list(INVALID_KINDS) if level < 2 else ["raise", "raise_noargs", "valid"] + list(INVALID_KINDS) + list(HE_INVALID)
                 for kind in kinds:
                     for record in (True, False):
                         if not record and n == 0:
@@ -256,6 +263,8 @@ def im_jobs(tier, cons=False, fault=False):
                 if tier == "quick" and (B, nfs) == (3, 2) and level0 == 0:
                     continue
                 jobs.append(J("h_im:HIM", D=D, npts=2, level0=level0, B=B, nfs=nfs, cons="bool" if cons else None, fault=fault, seed=(B == 100 and nfs == 10)))
+    for level0 in (0, 1):
+        jobs.append(J("h_im:HIM", D=1, npts=2, level0=level0, B=100, nfs=10, cons="bool" if cons else None, fault=fault, seed=False, noise_size=0.05))
     if tier == "thorough":
         jobs.append(J("h_im:HIM", D=1, npts=3, level0=0, B=100, nfs=10, cons="bool" if cons else None, fault=fault, seed=False))
     else:
@@ -346,7 +355,7 @@ C03_PS = {"poll_at_most_2D_evaluations", "poll_calls_only_below_budget", "poll_f
 C03_SS = {"search_at_most_one_evaluation", "search_count_incremented_once", "search_success_only_with_evaluation"}
 C03_FL = {"func_count_plus_one", "failure_leaves_count", "target_called_once"}
 PROPS["C03"] = dict(
-    jobs=lambda tier: lb_jobs(tier) + ps_jobs(tier, levels=(0, 1)) + ss_jobs(tier, levels=(0, 1)) +
+    jobs=lambda tier: lb_jobs(tier) + ps_jobs(tier, levels=(0, 1)) + ss_jobs(tier, levels=(0, 1)) + ss_jobs("quick", levels=(0,), cons=True) +
     [j for j in c12_jobs("quick") if j["params"]["op"] == "call" and j["params"]["D"] == 2 and j["params"]["n_filled"] in (0, 2)],
     labels=C03_LB | C03_PS | C03_SS | C03_FL, required=sorted(C03_LB | C03_PS | C03_SS | {"func_count_plus_one"}),
     bounds=dict(quick="loop body (one inductive step, symbolic budget / counters / iteration bound, ranking function): D<=2, k0 in {0,-1,-19,-20}, every search_count; poll and search steps as C13/C18; logger: D=2",
@@ -594,7 +603,7 @@ PROPS["C20"] = dict(
     time_limit=dict(quick=600, thorough=3600))
 
 # ------------------------------------------------------------------------------------------------ C07 (narrow)
-C07_LABELS = {"seed_recorded", "seeded_before_first_draw", "reseeded_before_first_draw", "seeded_x0_draw_independent_of_prior_rng_state",
+C07_LABELS = {"seed_recorded", "seeded_before_first_draw", "reseeded_before_first_draw", "reseeded_before_first_target_call", "seeded_x0_draw_independent_of_prior_rng_state",
               "rng_used_only_when_x0_missing"}
 PROPS["C07"] = dict(
     jobs=lambda tier: [J("h_bc:HBC", D=D, pat=_pat(D, x0=x0), spell={}, nonlinear=False, seed="sym", twice=True) for D in ((1, 2) if tier == "thorough" else (1,)) for x0 in (None, ["s"] * D, ["nan"] * D)] +
